@@ -8,6 +8,7 @@ pub mod c09;
 pub mod c15;
 pub mod c16;
 pub mod c17;
+pub mod c18;
 pub mod c20;
 
 pub fn run(id: &str, eng: &mut Engine) -> bool {
@@ -21,6 +22,7 @@ pub fn run(id: &str, eng: &mut Engine) -> bool {
         "C15" => c15::run(eng),
         "C16" => c16::run(eng),
         "C17" => c17::run(eng),
+        "C18" => c18::run(eng),
         "C20" => c20::run(eng),
         _ => return false,
     }
